@@ -344,6 +344,7 @@ def nest_strategy(tier):
             "coreOrigin": st.one_of(st.none(), st.tuples(st.floats(-100, 100), st.floats(-100, 100), st.floats(-100, 100)).map(list)),
             "midFree": st.one_of(st.none(), st.tuples(st.floats(-5, 5), st.floats(-5, 5), st.floats(0, 5)).map(list)),
             "depth": st.integers(1, 3),
+            "boffset": st.one_of(st.none(), st.tuples(st.floats(-50, 50), st.floats(-50, 50), st.floats(-50, 50)).map(list)),
             "trz": st.fixed_dictionaries({"theta": st.integers(1, 8), "r": _bounds(2, 6), "z": _bounds(2, 5), "cell": st.tuples(st.integers(0, 7), st.integers(0, 4), st.integers(0, 3)).map(list)}),
         }
     )
@@ -392,6 +393,18 @@ def nest_execute(case):
     out.check(ax.isAxialOnly and len(ax) == len(zb), "axial/axial-only", "axial grid flags")
     ax2 = _rebuild(ax)
     out.check(_close(ax2.getCoordinates((0, 0, k)), c, 0.0) and ax2.isAxialOnly and ax2.reduce()[2:] == ax.reduce()[2:], "axial/reduce", "rebuilt axial grid differs")
+    # offsets apply to bounds-defined dimensions as well (centre/base/top = bounds value + offset)
+    bo = case.get("boffset")
+    if bo is not None:
+        out.label("bounds-grid-with-offset")
+        axo = grids.AxialGrid(bounds=(None, None, np.array(zb)), offset=tuple(bo))
+        want = (bo[0], bo[1], (zb[k] + zb[k + 1]) / 2.0 + bo[2])
+        got = axo.getCoordinates((0, 0, k))
+        out.check(_close(got, want, tolz + 1e-9 * 50), "axial/offset-centre", lambda: "k=%d offset %s: %s expected %s" % (k, bo, list(got), want))
+        out.check(_close(axo.getCellBase((0, 0, k)), (bo[0], bo[1], zb[k] + bo[2]), tolz + 1e-9 * 50)
+                  and _close(axo.getCellTop((0, 0, k)), (bo[0], bo[1], zb[k + 1] + bo[2]), tolz + 1e-9 * 50), "axial/offset-base-top", "k=%d offset %s" % (k, bo))
+        axo2 = _rebuild(axo)
+        out.check(_close(axo2.getCoordinates((0, 0, k)), got, 0.0), "axial/offset-reduce", "rebuilt offset axial grid differs")
     axn = grids.AxialGrid.fromNCells(len(zb))
     out.check(_close(axn.getCoordinates((0, 0, k)), (0, 0, k + 0.5), 1e-12), "axial/fromNCells", "unit axial grid centre")
     # theta-R-Z
@@ -410,6 +423,17 @@ def nest_execute(case):
               and _close(trz.getCellTop((ci, cj, ck)), (thb[ci + 1], t["r"][cj + 1], t["z"][ck + 1]), tolr), "trz/base-top", "cell %s" % ((ci, cj, ck),))
     out.check(tuple(trz.getRingPos((ci, cj, ck))) == (cj + 1, ci + 1) and tuple(trz.getIndicesFromRingAndPos(cj + 1, ci + 1)) == (ci, cj),
               "trz/ringpos", "cell %s" % ((ci, cj, ck),))
+    # native coordinates through the locator, at the end of the parent chain and nested
+    tloc = trz[ci, cj, ck]
+    out.check(_close(tloc.getLocalCoordinates(nativeCoords=True), (th_m, r_m, z_m), tolr)
+              and _close(tloc.getGlobalCoordinates(nativeCoords=True), (th_m, r_m, z_m), tolr), "trz/locator-native-coordinates",
+              lambda: "locator native coordinates %s expected %s" % (list(tloc.getGlobalCoordinates(nativeCoords=True)), (th_m, r_m, z_m)))
+    out.check(_close(tloc.getGlobalCoordinates(), xyz, 0.0), "trz/locator-xyz-coordinates", "locator x-y-z coordinates differ from the grid's")
+    if bo is not None:
+        trzo = grids.ThetaRZGrid(bounds=(np.array(thb), np.array(t["r"]), np.array(t["z"])), offset=(0.0, 0.0, bo[2]))
+        nat_o = trzo.getCoordinates((ci, cj, ck), nativeCoords=True)
+        out.check(_close(nat_o, (th_m, r_m, z_m + bo[2]), tolr + 1e-9 * 50), "trz/offset-native-centre",
+                  lambda: "axial offset %r: %s expected z %r" % (bo[2], list(nat_o), z_m + bo[2]))
     trz2 = _rebuild(trz)
     out.check(_close(trz2.getCoordinates((ci, cj, ck)), xyz, 0.0), "trz/reduce", "rebuilt theta-rz grid differs")
 
